@@ -4,6 +4,7 @@ import (
 	"fmt"
 	"go/ast"
 	"go/token"
+	"go/types"
 	"sort"
 	"strings"
 
@@ -23,6 +24,8 @@ func checkC14(c *Ctx) {
 	c.Rule("C14-R6", "AddTerminfo stores under Name and every alias inside the database lock; the map has no other writer; every read is under the lock")
 	c.Rule("C14-R8", "TCELL_TRUECOLOR=disable switches direct colour off for the screen whatever the description contains: Init stores truecolor=false under that test, after every other store to it")
 	c.Expect("C14-R8", 1)
+	c.Rule("C14-R9", "a NAME-256color / NAME-truecolor request for a known base is built on the base the fallback lookup found: the result of every recursive lookup flows into the value that is tested before giving up with ErrTermNotFound")
+	c.Expect("C14-R9", 2)
 	c.Rule("C14-R7", "the colour count agrees with the colour strings: SetFg, SetBg and SetFgBg of every entry select palette entry n for every n below the entry's colour count")
 	c.Expect("C14-R7", 60)
 	c.Expect("C14-R1", 49+30)
@@ -60,6 +63,7 @@ func checkC14(c *Ctx) {
 		c14Lookup(c, p)
 		c14Registry(c, p)
 		c14Disable(c, p)
+		c14FoundBaseIsUsed(c, p)
 		c.extra["database"] = map[string]interface{}{"entries": len(db.entries), "tparm_call_sites": db.tparmN, "arity_table": db.arity, "prepared_arity": db.arityG}
 	}
 }
@@ -808,4 +812,71 @@ func c14Disable(c *Ctx, p *Prog) {
 		}
 	}
 	c.Check(ok, "C14-R8", "Init:TCELL_TRUECOLOR=disable", p.pos(fn.Pos()), detail)
+}
+
+// c14FoundBaseIsUsed (R9): a NAME-256color / NAME-truecolor request for a known base builds on the base
+// entry the fallback lookup found.  The *Terminfo result of every recursive LookupTerminfo call must
+// flow (through phis) into the value the function tests before it gives up with ErrTermNotFound — a
+// result that lands in a shadowed variable is found and then thrown away.
+func c14FoundBaseIsUsed(c *Ctx, p *Prog) {
+	fn := p.Fn("terminfo:LookupTerminfo")
+	if fn == nil {
+		c.Undecided("C14-R9", "LookupTerminfo", "-", "not found")
+		return
+	}
+	// the value tested for nil on the way to `return nil, ErrTermNotFound`, after the fallbacks
+	var tested []ssa.Value
+	for _, r := range returnsOf(fn) {
+		if len(r.Results) != 2 {
+			continue
+		}
+		u, ok := r.Results[1].(*ssa.UnOp)
+		if !ok {
+			continue
+		}
+		if g, isG := u.X.(*ssa.Global); !isG || g.Name() != "ErrTermNotFound" {
+			continue
+		}
+		for _, gd := range rawGuardsAt(r.Block()) {
+			if bo, isBO := gd.Cond.(*ssa.BinOp); isBO && isNilConst(bo.Y) && ((bo.Op == token.EQL && gd.Positive) || (bo.Op == token.NEQ && !gd.Positive)) {
+				if _, isPtr := bo.X.Type().Underlying().(*types.Pointer); isPtr {
+					tested = append(tested, bo.X)
+				}
+			}
+		}
+	}
+	if len(tested) == 0 {
+		c.Undecided("C14-R9", "LookupTerminfo:not-found-test", p.pos(fn.Pos()), "no `t == nil` test leading to ErrTermNotFound")
+		return
+	}
+	closure := map[ssa.Value]bool{}
+	var walk func(v ssa.Value)
+	walk = func(v ssa.Value) {
+		if closure[v] {
+			return
+		}
+		closure[v] = true
+		if phi, ok := v.(*ssa.Phi); ok {
+			for _, e := range phi.Edges {
+				walk(e)
+			}
+		}
+	}
+	for _, t := range tested {
+		walk(t)
+	}
+	n := 0
+	for _, call := range callsIn(fn, func(_ string, cc *ssa.CallCommon) bool { return cc.StaticCallee() == fn }) {
+		n++
+		used := false
+		for _, r := range referrers(call.(ssa.Value)) {
+			if ex, ok := r.(*ssa.Extract); ok && ex.Index == 0 && closure[ex] {
+				used = true
+			}
+		}
+		c.Check(used, "C14-R9", fmt.Sprintf("LookupTerminfo:fallback#%d:found-base-is-used", n), p.pos(call.Pos()), "the entry found by the fallback lookup reaches the value the result is built from")
+	}
+	if n == 0 {
+		c.Undecided("C14-R9", "LookupTerminfo:fallbacks", p.pos(fn.Pos()), "no fallback lookups found")
+	}
 }
